@@ -31,7 +31,7 @@ HARNESSES = {
 PROPS = {
     'C01': dict(
         harness='c01', level='exploration',
-        quick=dict(shards=8, n=500, size=100),
+        quick=dict(shards=8, n=1500, size=100),
         thorough=dict(shards=16, n=20000, size=100),
         rule='rapidcheck-generated scenario = cgroup tree (<=14 cgroups, wildcard-ambiguous names, 0-45 pids, '
              'pid-0 lines, per-pid kill outcomes) x 1-2 rulesets with one of the five kill plugins and random '
@@ -92,7 +92,7 @@ PROPS = {
     ),
     'C13': dict(
         harness='c13', level='exploration',
-        quick=dict(shards=8, n=1500, size=100),
+        quick=dict(shards=8, n=3000, size=100),
         thorough=dict(shards=16, n=60000, size=100),
         rule='rapidcheck stateful generation: base config of 1-3 rulesets (duplicate names allowed, all 8 drop-in '
              'permission combinations, 0-2 base prekill hooks) and a sequence of <=12 operations over 4 tags: add / '
@@ -107,7 +107,7 @@ PROPS = {
     ),
     'C17': dict(
         harness='c17', level='exploration',
-        quick=dict(shards=8, n=500, size=100),
+        quick=dict(shards=8, n=1200, size=100),
         thorough=dict(shards=16, n=20000, size=100),
         rule='C01-style scenario (tree, five kill plugins, random arguments, 2-6 ticks) biased to repeated kills of '
              'the same cgroup (delay 0, lingering / EPERM / ESRCH pids), pre-existing integer oomd_* xattrs (0..2^30), '
@@ -122,7 +122,7 @@ PROPS = {
     ),
     'C04': dict(
         harness='c04', level='exploration',
-        quick=dict(shards=8, n=400, size=100),
+        quick=dict(shards=8, n=800, size=100),
         thorough=dict(shards=16, n=15000, size=100),
         rule='differential: each generated scenario (C01-style world and history, one of the five kill plugins or '
              'systemd_restart per ruleset) is run twice on identically materialised worlds, dry=true and dry=false. '
@@ -135,7 +135,7 @@ PROPS = {
     ),
     'C15': dict(
         harness='c15', level='exploration',
-        quick=dict(shards=8, n=400, size=100),
+        quick=dict(shards=8, n=800, size=100),
         thorough=dict(shards=16, n=15000, size=100),
         rule='rapidcheck-generated trees (depth <=4, <=10 cgroups) with control-file contents from the kernel grammar '
              '(values up to 2^60 and max, permuted / extra memory.stat keys, upstream and legacy PSI, io.stat for '
@@ -149,7 +149,7 @@ PROPS = {
     ),
     'C09': dict(
         harness='c09', level='exploration',
-        quick=dict(shards=8, n=600, size=100),
+        quick=dict(shards=8, n=1500, size=100),
         thorough=dict(shards=16, n=25000, size=100),
         rule='rapidcheck-generated sibling sets (2-8 populated siblings of equal preference under one parent, '
              'non-recursive) with usage / protection / swap / PSI / io.stat / pgscan statistics (small, up to 2^58 with '
@@ -165,7 +165,7 @@ PROPS = {
     ),
     'C03': dict(
         harness='c03', level='exploration',
-        quick=dict(shards=8, n=600, size=100),
+        quick=dict(shards=8, n=1500, size=100),
         thorough=dict(shards=16, n=25000, size=100),
         rule='rapidcheck-generated trees (depth <=4, <=14 cgroups) with every combination of prefer/avoid xattrs '
              '(trusted. and user., both at once), memory.oom.group, populated flags (incl. zombies), metric ties and '
@@ -180,7 +180,7 @@ PROPS = {
     ),
     'C07': dict(
         harness='c07', level='exploration',
-        quick=dict(shards=8, n=600, size=100),
+        quick=dict(shards=8, n=1500, size=100),
         thorough=dict(shards=16, n=25000, size=100),
         rule='rapidcheck-generated scenario: small tree, 0-3 base prekill hooks and 0-2 drop-in units of hooks (1-3 '
              'patterns each: /, literal, * components, non-matching), prekill_hook_timeout 0..10 s, per-fire hook '
@@ -196,7 +196,7 @@ PROPS = {
     ),
     'C08': dict(
         harness='c08', level='exploration',
-        quick=dict(shards=8, n=600, size=100),
+        quick=dict(shards=8, n=1500, size=100),
         thorough=dict(shards=16, n=25000, size=100),
         rule='one real core detector (pressure_above, pressure_rising_beyond, memory_above, memory_reclaim, swap_free, '
              'exists, nr_dying_descendants) with generated arguments (both resources, thresholds as integers / % / bare '
@@ -211,7 +211,7 @@ PROPS = {
     ),
     'C18': dict(
         harness='c18', level='exploration',
-        quick=dict(shards=8, n=400, size=100),
+        quick=dict(shards=8, n=1000, size=100),
         thorough=dict(shards=16, n=15000, size=100),
         rule='rapidcheck-generated scenario: 0-5 cgroups under the senpai cgroup pattern plus unmatched neighbours; '
              'usage with file/anon active/inactive split, memory.min/high/max, swap limits and usage up the hierarchy, '
@@ -264,7 +264,7 @@ PROPS = {
     ),
     'C12': dict(
         harness='c12', level='exploration', engine='rapidcheck + libFuzzer',
-        quick=dict(shards=8, n=4000, size=100, fuzz_jobs=8, fuzz_runs=40000, bin_docs=320),
+        quick=dict(shards=8, n=10000, size=100, fuzz_jobs=8, fuzz_runs=40000, bin_docs=320),
         thorough=dict(shards=16, n=150000, size=100, fuzz_jobs=16, fuzz_runs=3000000, bin_docs=3000),
         rule='four cooperating checks. (a) libFuzzer (ASan+UBSan) on configuration text with the repository fixtures, '
              'etc/desktop.json and the documentation examples as corpus and a dictionary of keys / plugin names: '
@@ -320,7 +320,7 @@ PROPS = {
     ),
     'C14': dict(
         harness='c14_tsan', level='exploration',
-        quick=dict(shards=8, n=120, size=100, asan_shards=8, asan_n=120),
+        quick=dict(shards=8, n=300, size=100, asan_shards=8, asan_n=300),
         thorough=dict(shards=16, n=4000, size=100, asan_shards=16, asan_n=4000),
         confirm_replays=3,
         rule='rapidcheck stateful generation against the real FsDropInService (inotify on tmpfs, its own watcher '
